@@ -242,7 +242,12 @@ func (bq *InMemoryBuildQueue) verifWalkInvocation(i *invocation, scq *sizeClassQ
 
 // VerifDump returns a canonical description of the scheduler state.
 func (bq *InMemoryBuildQueue) VerifDump() *VerifState {
-	bq.lock.Lock()
+	// The dump is taken while no call is inside the scheduler. If the
+	// lock cannot be obtained, a call died while holding it: report
+	// that by returning nil instead of blocking forever.
+	if !bq.lock.TryLock() {
+		return nil
+	}
 	defer bq.lock.Unlock()
 
 	s := &VerifState{
